@@ -194,7 +194,7 @@ func verifyFunc(w *World, key string) *FuncResult {
 	res.Inlined = sortedKeys(g.inlined)
 	res.Decls = g.decls
 	res.Cons = g.cons
-	res.Axioms = append(append([]string{}, g.extraAxioms...), g.specAxioms...)
+	res.Axioms = append(append([]string{}, g.extraAxioms...), g.finalAxioms()...)
 	res.GenMs = time.Since(t0).Milliseconds()
 	return res
 }
@@ -297,14 +297,14 @@ func (g *Gen) lemmaFormula(l *Lemma) string {
 	g.dryFacts--
 	g.symStack = g.symStack[:len(g.symStack)-1]
 	g.symStates = g.symStates[:len(g.symStates)-1]
-	var bs []string
-	for _, k := range sortedKeys(sym.vars) {
-		bs = append(bs, fmt.Sprintf("(%s %s)", sym.vars[k], g.compSort[k]))
+	hv := map[string]string{}
+	for k, name := range sym.vars {
+		if occursIn([]string{t}, name) {
+			hv[k] = name
+		}
 	}
-	if len(bs) > 0 {
-		t = fmt.Sprintf("(forall (%s) %s)", strings.Join(bs, " "), t)
-	}
-	return t
+	g.heapAxioms = append(g.heapAxioms, heapAxiom{text: t, vars: hv})
+	return ""
 }
 
 // verifyLemma proves a lemma: plain, or by induction on one of its outermost universally quantified variables.
@@ -360,37 +360,63 @@ func verifyLemma(w *World, name string) *FuncResult {
 			g.errorf("lemma %s: induction variable %s is not bound by the outermost forall", name, l.Induction)
 			return
 		}
-		// P(n) := forall others :: body
+		// P(n) := forall others :: body ; Q(n, sk) := body with the other variables replaced by fresh constants
 		pOf := func(nTerm string) string {
 			sub := env.sub()
 			sub.bound = map[string]*Value{indVar: mathVal(nTerm)}
 			var body Expr = q.Body
 			if len(others) > 0 {
-				body = &Quant{Forall: true, Vars: others, Body: q.Body}
+				body = &Quant{Forall: true, Vars: others, Trig: q.Trig, Body: q.Body}
 			}
 			g.dryFacts++
 			defer func() { g.dryFacts-- }()
 			return sub.evalBool(body)
 		}
-		g.addOblig(st, "lemma", "lemma.base", pOf("0"), l.Src+"  [n = 0]")
+		sk := map[string]*Value{}
+		var skGuards []string
+		for _, o := range others {
+			t, err := g.W.lookupType(o.T, l.PkgPath)
+			if err != nil {
+				g.errorf("lemma %s: %v", name, err)
+				return
+			}
+			val := g.freshValue(st, "sk."+o.Name, t)
+			if o.T.Kind == "name" && (o.T.Name == "int" || o.T.Name == "mathint") {
+				val = mathVal(g.fresh("sk."+o.Name, sInt))
+			}
+			sk[o.Name] = val
+		}
+		_ = skGuards
+		qOf := func(nTerm string) string {
+			sub := env.sub()
+			sub.bound = map[string]*Value{indVar: mathVal(nTerm)}
+			for k, v := range sk {
+				sub.bound[k] = v
+			}
+			g.dryFacts++
+			defer func() { g.dryFacts-- }()
+			return sub.evalBool(q.Body)
+		}
+		g.addOblig(st, "lemma", "lemma.base", qOf("0"), l.Src+"  [n = 0]")
 		// negative n: lemma bodies are expected to guard n >= 0 themselves; checked here too
 		k := g.fresh("neg", sInt)
 		negSt := st.clone()
-		g.addOblig(negSt, "lemma", "lemma.neg", smtImp("(< "+k+" 0)", pOf(k)), l.Src+"  [n < 0]")
+		g.addOblig(negSt, "lemma", "lemma.neg", smtImp("(< "+k+" 0)", qOf(k)), l.Src+"  [n < 0]")
 		n := g.fresh("n", sInt)
 		stepSt := st.clone()
 		g.addCons("(>= " + n + " 0)")
-		// strong induction hypothesis: P(m) for all 0 <= m <= n
+		// induction hypothesis: the instance at n for the same other variables, and P(m) for all 0 <= m <= n
+		g.addCons(qOf(n))
 		m := g.freshName("m")
 		g.addCons(fmt.Sprintf("(forall ((%s Int)) (=> (and (<= 0 %s) (<= %s %s)) %s))", m, m, m, n, pOf(m)))
-		g.addOblig(stepSt, "lemma", "lemma.step", pOf("(+ "+n+" 1)"), l.Src+"  [n -> n+1]")
+		g.addOblig(stepSt, "lemma", "lemma.step", qOf("(+ "+n+" 1)"), l.Src+"  [n -> n+1]")
 	}()
 	res.Obls = g.obls
 	res.Errs = append(res.Errs, g.errs...)
 	res.Notes = sortedKeys(g.notes)
 	res.Decls = g.decls
 	res.Cons = g.cons
-	res.Axioms = append(append([]string{}, g.extraAxioms...), g.specAxioms...)
+	res.Axioms = append(append([]string{}, g.extraAxioms...), g.finalAxioms()...)
 	res.GenMs = time.Since(t0).Milliseconds()
 	return res
 }
